@@ -128,8 +128,11 @@ def gen_script(rng, localraw, ifs, nops, focus):
                 recs.append(arec(nm, rt, addr, rng.choice([120, 120, 1, 0, 4500])))
         lines.append("DELIVER %s|%d|%d|0|0|%s|%s" % (rng.choice(srcs), rng.choice([5353, 5353, 49152, 1]), rng.randrange(65536), ";".join(qs), ";".join(recs)))
 
+    ghosts = rng.random() < 0.25
     for _ in range(nops):
         r = rng.random()
+        if ghosts and rng.random() < 0.25:
+            lines.append("GHOST hostname")       # a second Hostname on the same server comes and goes
         if focus == "C17":
             if not m.reg:
                 adv("ADV", m.deadline)
